@@ -248,6 +248,14 @@ was corrected in the machinery, never by loosening a right oracle):
 * **Runner**: Hypothesis has no shrink budget → after a failure is known, at most 400 further oracle evaluations are spent on
   shrinking (then the best failing case so far is replayed and reported); replay files of earlier runs are deleted at the start
   of a run.
+* **Round 5**: the C07 coverage-guided target executed 300 inputs in a second and found nothing new - Hypothesis's byte front end
+  never decoded `fixed_dictionaries` with four or more keys, and an empty corpus never grows to a decodable length → the same grammar
+  drawn as a tuple (`fuzz_cases`) and a corpus of eight pseudo-random 3 000-byte blobs. The C07 fragment "permitted access, then a
+  denied one of the same name" appeared in 8 of 300 histories when offered as one alternative among the messages → spliced in by
+  construction (332 of 1 200). C20's slow-read fault first reported `transfer-raised:TimeoutError` on the clean tree:
+  `AsyncResultTimeout` IS the builtin `TimeoutError`, the harness had compared class names → compares the class. C02's new
+  StopIteration-subclass step was never generated within the quick budget (one of eight methods on three of eighteen slots) →
+  constructive fragment.
 
 """
 a = s.index("## 7. Calibration log")
@@ -278,6 +286,9 @@ REASONS = {
               "timeouts to the universal clauses only and does not call either behaviour a violation",
     "C15-m8": "needs a preemption INSIDE one source line of add_callback (between loading the list attribute and calling append); "
               "the simulation kernel preempts at line granularity (stated assumption of C13)",
+    "C20-m10": "pipelines the upload's writes; the copy differs only when the PEER serves the one connection from several threads and "
+               "handles two in-flight writes out of order; C20's harness peer serves from one task (the statement quantifies over trees, "
+               "sizes, chunks and filters), and C13's concurrent requests observe replies, not the order of side effects at the peer",
     "C09-m5": "needs two threads serving two failing requests on ONE connection at the same time (the shared traceback slot); C09's "
               "generated cases are single-threaded on the serving side and C13's concurrent clients never fail remotely",
 }
@@ -314,8 +325,8 @@ NOT_CAUGHT = (SUMMARY + "Not caught by any check (stated limits of the machinery
               ". Two round-1 changes (`C11-m1`, `C17-m2`) no longer break their property after a repair made the tree tolerant of them.")
 s += """## 9. Seeded changes (independent sub-agents) and which checks catch them
 
-144 changes were written by fresh sub-agents that saw only one property's text and a scratch worktree: round 1 two per property
-(`m1`, `m2`), rounds 2 and 3 two more each (`m3`/`m4`, `m5`/`m6`), round 4 (`m7`/`m8`) for twelve properties, by new sub-agents that were additionally given a one-line list of
+160 changes were written by fresh sub-agents that saw only one property's text and a scratch worktree: round 1 two per property
+(`m1`, `m2`), rounds 2 and 3 two more each (`m3`/`m4`, `m5`/`m6`), round 4 (`m7`/`m8`) for twelve properties and round 5 (`m9`/`m10`) for the other eight, by new sub-agents that were additionally given a one-line list of
 the *ideas* already used for that property (no code, nothing from /verif) so that they would look elsewhere. Each was confirmed by me (demo fails with the patch, passes without, the repository's 57 tests still pass with it) before being kept
 under `seeded/<ID>-m<i>/`; `tools/seeded_run.py` re-validates all of them against the current /repo HEAD (fifteen patches were
 rebased (3-way or by hand) after repairs changed their context - originals kept as `patch.orig.diff`; two no longer break the property
@@ -339,7 +350,7 @@ callbacks; C14 single-caller preemption before `wait()`, poll() receivers, raisi
 hooks, simultaneous clients, per-client configuration; C17 close during accept, coalesced child exits, wrapping authenticator,
 poll registrations; C18 real loopback, notification order, failing reply transmission; C19 lone surrogates; C20 snapshots at
 return, second transfer, NUL contents, sibling temp names; round 4 added C05 error kinds, C09 route-locally switches, C10 late
-fetch, C11 yielding hook, C15 unretained results, C16 impostor class. Four of these extensions exposed genuine defects of the
+fetch, C11 yielding hook, C15 unretained results, C16 impostor class; round 5 added C02 tuple-subclass targets/results and a data-less StopIteration subclass, C04 concurrent encoders, C07 permitted-then-denied access of one name (and the coverage-guided campaign), C18 tuple-shaped commands, C20 a remote read that outlasts the request timeout. Four of these extensions exposed genuine defects of the
 pinned tree (pool descriptor re-use, `close()` with a wrapping authenticator, lost completion callback, on-demand import while
 loading an exception), all repaired (§3).
 
